@@ -120,6 +120,7 @@ OPS_DEPS = {
     "ops_bpm.c": ["shim_kmeans.c", "shim_bpm.c"],
     "ops_kmeans.c": ["shim_kmeans.c", "shim_kmeans_serial.c"],
     "ops_pipe.c": [],
+    "ops_pipefile.c": ["shim_run_kalign.c"],
     "ops_weave.c": [],
     "ops_ref.c": [],
     "ops_sys.c": [],
@@ -136,6 +137,7 @@ VARIANTS = {
               ["-fopenmp", "-lm"]),
     "noomp": ("gcc", ["-O2", "-g", "-mavx2", "-DHAVE_AVX2", "-ffp-contract=off", "-Wno-unknown-pragmas", "-DKV_MEMCOUNT", "-fno-builtin-malloc", "-fno-builtin-free"], ["-lm"]),
     "noavx": ("gcc", ["-O2", "-g", "-fopenmp", "-DHAVE_OPENMP", "-ffp-contract=off"], ["-fopenmp", "-lm"]),
+    "cov": ("gcc", ["-O0", "-g", "--coverage", "-fopenmp", "-DHAVE_OPENMP", "-mavx2", "-DHAVE_AVX2", "-ffp-contract=off"], ["--coverage", "-fopenmp", "-lm"]),
     "tsan": ("clang-14", ["-O1", "-g", "-fsanitize=thread", "-fopenmp", "-DHAVE_OPENMP", "-mavx2", "-DHAVE_AVX2",
                           "-ffp-contract=off"], ["-fsanitize=thread", "-fopenmp", "-lm"]),
 }
@@ -611,6 +613,27 @@ def pipeline_theorems(prefixes):
         return []
     names = [l.strip() for l in open(p) if l.strip() and not l.startswith("#")]
     return [n for n in names if any(n.split(".")[-1].startswith(x) for x in prefixes)]
+
+
+def pipefile_theorems(prefixes):
+    p = os.path.join(LEAN, "KalignModel", "Props", "PipelineFile.theorems")
+    if not os.path.exists(p):
+        return []
+    names = [l.strip() for l in open(p) if l.strip() and not l.startswith("#")]
+    return [n for n in names if any(n.split(".")[-1].startswith(x) for x in prefixes)]
+
+
+def pipefile_correspondence(ctx, kvh, seeds, scale=1):
+    """whole-program tie: the composed Lean model `kalignFile` (readers incl. several files, dealign, kalignRun stages, writers) against the real
+    kalign_read_input / kalign_run (1 and 4 threads) / kalign_write_msa and the CLI's run_kalign() on the same file bytes; output bytes compared"""
+    lines = []
+    for sd in seeds:
+        lines += gen_ops("gen_pipefile.py", sd, scale)
+    diffs = correspond(kvh, lines, chunks=NCPU, timeout=1800)
+    ctx.count("unit_ops_pipefile", len(lines))
+    ctx.evaluations += len(lines)
+    ctx.cov.setdefault("unit_op_kinds", {})["kalign_file"] = ctx.cov.get("unit_op_kinds", {}).get("kalign_file", 0) + len(lines)
+    return diffs
 
 
 def pipeline_correspondence(ctx, kvh, seeds, scale=1, keep=None):
